@@ -49,6 +49,10 @@ func c12Grammars(sw *sweeper, tier string) []*gram.Grammar {
 		gram.LexDef{Name: "_d", Kind: "reg", P: gram.Rng('0', '9')}, gram.LexDef{Name: "!ws", Kind: "ign", P: gram.AltP(gram.Lit(' '), gram.Lit('\n'))},
 		gram.LexDef{Name: "zlast", Kind: "tok", P: gram.Lit('z')})
 	gs = append(gs, u)
+	// identifiers of arbitrary length (long lexemes through lexer + parser)
+	id := gram.Mk("S: id S | id eq id")
+	id.Lex = []gram.LexDef{{Name: "id", Kind: "tok", P: gram.Seq(gram.Rng('a', 'c'), gram.Rep(gram.Rng('a', 'c')))}, {Name: "eq", Kind: "tok", P: gram.Lit('=')}, {Name: "!ws", Kind: "ign", P: gram.Lit(' ')}}
+	gs = append(gs, id)
 	return gs
 }
 
@@ -179,6 +183,10 @@ func init() {
 					name = strings.Join(v, " ")
 				}
 				it.Extra = map[string]any{"group": fmt.Sprint("grp", gi), "variant": name}
+				if len(g0.Lex) > 0 && g0.Lex[0].Name == "id" {
+					rep := func(n int) string { return strings.Repeat("ab", n/2) + strings.Repeat("c", n%2) }
+					it.Extra["sources"] = []string{"a", rep(31), rep(32), rep(33) + " bb", rep(34) + "=bb cc", rep(40) + " b", "a " + rep(35) + " " + rep(36) + "=c", rep(33) + "?", rep(64) + " " + rep(65)}
+				}
 				items = append(items, it)
 			}
 		}
@@ -199,7 +207,7 @@ func init() {
 		driverLoop(c, r, "C12", "flags", "flags", n, nil, "sequences")
 		r.Add("evaluations", r.Get("inputs"))
 		r.Set("grammars", len(gs))
-		r.Set("rule", "(i) per grammar all 24 valid subsets of {-zip,-debug_lexer,-debug_parser,-v,-no_lexer} through the generator: same exit status, same file set (-no_lexer only removes lexer/); an emitted .go file that is NOT byte-identical to what its own flag alone produces (lexer.go <- -debug_lexer, parser.go <- -debug_parser, action/goto tables <- -zip, everything else <- nothing) makes that flag subset suspicious and it is compiled in (ii); (ii) the variants plain, -zip, -debug_lexer, -debug_parser, all three, -no_lexer -zip and every suspicious subset compiled: tables after init() equal cell by cell, every token sequence up to the bound through Parse (errors, recovery, action calls) and every byte string up to length 4 through Scan give identical observations; distinct = (grammar, flag subset) and (variant, observation)")
+		r.Set("rule", "(i) per grammar all 24 valid subsets of {-zip,-debug_lexer,-debug_parser,-v,-no_lexer} through the generator: same exit status, same file set (-no_lexer only removes lexer/); an emitted .go file that is NOT byte-identical to what its own flag alone produces (lexer.go <- -debug_lexer, parser.go <- -debug_parser, action/goto tables <- -zip, everything else <- nothing) makes that flag subset suspicious and it is compiled in (ii); (ii) the variants plain, -zip, -debug_lexer, -debug_parser, all three, -no_lexer -zip and every suspicious subset compiled: tables after init() equal cell by cell, every token sequence up to the bound through Parse (errors, recovery, action calls) and every byte string up to length 3 through Scan give identical observations; for a grammar with identifiers of arbitrary length, sources with lexemes of 31-65 bytes through lexer+parser (identical results, and the caller's source buffer untouched); distinct = (grammar, flag subset) and (variant, observation)")
 		return r.Finish(nil)
 	}
 }
